@@ -108,6 +108,13 @@ theorem events_any_two (dec : Bytes → Str) (e₁ e₂ : List ConnEv)
     feedEvents true dec {} e₁ = feedEvents true dec {} e₂ := by
   rw [reconnect_is_concatenation, reconnect_is_concatenation, h]
 
+/-- consequently the gateway's state and everything it sends do not depend on where the chunk
+    and connection boundaries fall either (inline pump on the delivered lines) -/
+theorem behaviour_independent_of_connection_events (dec : Bytes → Str) (g : GW) (e₁ e₂ : List ConnEv)
+    (h : (dataOf e₁).flatten = (dataOf e₂).flatten) :
+    runInline gwSplit g [] (feedEvents true dec {} e₁).2 = runInline gwSplit g [] (feedEvents true dec {} e₂).2 := by
+  rw [events_any_two dec e₁ e₂ h]
+
 /-- the policy the code does NOT follow (buffer emptied at `connection_lost`), stated so that
     the correspondence can name which of the two a protocol class implements: the lines are the
     complete segments of each connection's own stream -/
